@@ -2,19 +2,23 @@ use crate::engine::Prop;
 
 pub mod c03;
 pub mod c04;
+pub mod c08;
 pub mod c09;
+pub mod c10;
 pub mod c12;
 pub mod c13;
 pub mod c15;
 pub mod c19;
 
-pub const ALL: &[&str] = &["C03", "C04", "C09", "C12", "C13", "C15", "C19"];
+pub const ALL: &[&str] = &["C03", "C04", "C08", "C09", "C10", "C12", "C13", "C15", "C19"];
 
 pub fn get(id: &str) -> Option<Box<dyn Prop>> {
     match id {
         "C03" => Some(Box::new(c03::C03)),
         "C04" => Some(Box::new(c04::C04)),
+        "C08" => Some(Box::new(c08::C08)),
         "C09" => Some(Box::new(c09::C09)),
+        "C10" => Some(Box::new(c10::C10)),
         "C12" => Some(Box::new(c12::C12)),
         "C13" => Some(Box::new(c13::C13)),
         "C15" => Some(Box::new(c15::C15)),
